@@ -320,7 +320,8 @@ def run_case(case):
                 "species": Z, "coords": Xk.tolist(), "charge": q}
         if s_hi == "unstable" and s_lo == "stable" or (s_hi == "unstable" and s_lo == "undecided" and i_lo.get("how", "").startswith("damped")):
             if hi_is_out:
-                mech = "pulay-cold-start-converges-to-saddle" if (c["conv"][0] == 2 and c["start"] == "cold" and not c.get("sp2")) else None
+                # DIIS extrapolation started from the cold guess (no damped/adaptive steps first) -- with either projector
+                mech = "pulay-cold-start-converges-to-saddle" if (c["conv"][0] == 2 and c["start"] == "cold") else None
                 viol.append({"clause": "converged-to-unstable-scf-solution", "mech": mech, "detail": info})
             else:
                 # the reference itself sits on the saddle (both reference paths did): report it against the reference solver
